@@ -1,4 +1,5 @@
 import LettreVerif.Proofs.C16
+import LettreVerif.Model.Builder
 /-!
 # C16 — Only safe, well-formed addresses are accepted, and they round-trip exactly
 
@@ -143,6 +144,34 @@ theorem envelope_nonempty (f : Option Addr) (to : List Addr) :
   cases to with
   | nil => simp [envelopeNew]
   | cons x xs => simp [envelopeNew]
+
+/-- … also when the envelope is derived from the header map (`Envelope::try_from(&Headers)`, behind every message builder):
+    whatever the stored headers are — a recipient field may be present with an empty list — an envelope that is produced
+    has a recipient, and it is refused with `MissingTo` exactly when To, Cc and Bcc together hold no address. (Round 7 of the
+    seeded changes: C16/m19 tested the presence of a header instead; the `envhdrs` cases exercise this on the real code.) -/
+theorem header_envelope_nonempty (e : Env) (s : Builder.St) :
+    (∀ ev, s.headerEnvelope e = .ok ev → ev.recipients ≠ []) ∧
+    (s.headerEnvelope e = .error .missingTo ↔
+      (s.reversePath e ≠ none ∧ s.addrs e .to ++ s.addrs e .cc ++ s.addrs e .bcc = [])) := by
+  unfold Builder.St.headerEnvelope
+  cases hr : s.reversePath e with
+  | none => simp
+  | some rp =>
+    by_cases h : (s.addrs e .to ++ s.addrs e .cc ++ s.addrs e .bcc).isEmpty = true
+    · simp only [h, if_true]
+      have : s.addrs e .to ++ s.addrs e .cc ++ s.addrs e .bcc = [] := by simpa using h
+      simp [this]
+    · simp only [h]
+      have hne : s.addrs e .to ++ s.addrs e .cc ++ s.addrs e .bcc ≠ [] := by simpa using h
+      refine ⟨?_, ?_⟩
+      rotate_left
+      · constructor
+        · intro hh; simp at hh
+        · intro hh; exact absurd hh.2 hne
+      intro ev hev
+      simp only [Bool.false_eq_true, if_false, Except.ok.injEq] at hev
+      subst hev
+      exact hne
 
 /-- non-vacuity: an environment satisfying A1–A3 exists and accepts a quoted local part with a
     space and an IPv6 literal. -/
